@@ -431,12 +431,25 @@ var textPool = []string{"a: b", "- x", "#h", "trail ", "multi\nline", "\"q\"", "
 // genText: free text for txt/lic/mrk. Texts that start with whitespace AND
 // contain a line break are not produced (yaml.v3 cannot round-trip them; see
 // DESIGN C10) - construction, not rejection.
+// longText: a text whose length needs more than one byte of a meta event's variable-length length field (128 bytes
+// and more), in ASCII or in three-byte characters
+var longText = rapid.Custom(func(t *rapid.T) string {
+	if !coin(t, "really-long", 20) {
+		return rapid.SampledFrom([]string{"la", "verse two", "\u6b4c\u8a5e"}).Draw(t, "not-long")
+	}
+	unit := rapid.SampledFrom([]string{"la ", "verse two second line ", "\u6b4c\u8a5e", "\u00e9t\u00e9 "}).Draw(t, "long-unit")
+	n := rapid.SampledFrom([]int{120, 127, 128, 129, 130, 200, 255, 256, 300, 1000, 16383, 16384, 20000}).Draw(t, "long-bytes")
+	s := strings.Repeat(unit, n/len(unit)+1)
+	return strings.TrimRight(s, " ") + "."
+})
+
 var genText = rapid.OneOf(
 	rapid.StringMatching(`[a-zA-Z0-9][a-zA-Z0-9 ]{0,11}`),
 	rapid.StringOfN(rapid.RuneFrom(unicodeLetters), 1, 10, -1),
 	anyLetters,
 	rapid.SampledFrom(textPool),
 	rapid.StringMatching(`[a-z:#\-{}\[\]&*!|>'"%@, ]{1,10}`),
+	longText,
 )
 
 type DocOpts struct {
